@@ -17,12 +17,23 @@ SESSIONS = []
 _SLOCK = threading.Lock()
 
 
+# circuit breaker: a server that stops answering costs one watchdog period per request; once it has happened in
+# FAIL_LIMIT sessions of a check the remaining sessions are not started (their result says so), so a check against a wedged
+# server ends in minutes, not hours
+FAIL_COUNT = [0]
+FAIL_LIMIT = 24
+
+
 class ServerDied(Exception):
-    pass
+    def __init__(self, *a):
+        Exception.__init__(self, *a)
+        FAIL_COUNT[0] += 1
 
 
 class Timeout(Exception):
-    pass
+    def __init__(self, *a):
+        Exception.__init__(self, *a)
+        FAIL_COUNT[0] += 1
 
 
 def path_to_uri(p):
@@ -281,6 +292,10 @@ def run_parallel(jobs, fn, workers=8):
                 i, j = q.get_nowait()
             except queue.Empty:
                 return
+            if FAIL_COUNT[0] >= FAIL_LIMIT:
+                results[i] = {"error": "session not started: the server already died or stopped answering %d times in this check" % FAIL_COUNT[0],
+                              "skipped": True}
+                continue
             try:
                 results[i] = fn(j)
             except Exception as e:  # tool-level trouble is data for the caller
